@@ -174,7 +174,20 @@ def make_visitor(rules: dict, strict: bool):
     for cname, rule in rules.items():
         if rule != "none":
             methods[f"visit_{cname}"] = mk(rule, cname)
-    return type("V", (ASTTransformVisitor,), methods)()
+    return layered("V", ASTTransformVisitor, methods, sum(1 for r in rules.values() if r != "none") % 3)()
+
+
+def layered(name, base, ns, layout):
+    """The visitor class in one of three layouts (what a project with its own base visitor looks like):
+    0 flat - flag and methods in one class; 1 the strict flag set on an intermediate base class and only inherited by the
+    class that defines the methods; 2 flag and methods defined on a base class, the class in use adds nothing."""
+    if layout == 0:
+        return type(name, (base,), dict(ns))
+    if layout == 1:
+        mid = type(name + "Base", (base,), {"strict": ns["strict"]})
+        return type(name, (mid,), {k: v for k, v in ns.items() if k != "strict"})
+    mid = type(name + "Base", (base,), dict(ns))
+    return type(name, (mid,), {})
 
 
 def effective_rule(cname, rules, strict):
@@ -362,24 +375,25 @@ def check_dispatch(rec):
             ns = {"strict": strict, "generic_visit": lambda self, node: "generic"}
             for m in have:
                 ns[f"visit_{m}"] = (lambda mm: lambda self, node: mm)(m)
-            vis = type("DV", (ASTVisitor,), ns)()
-            for cname, node in nodes.items():
-                rec.count("states")
-                rec.count("transitions")
-                rec.count("traces")
-                rec.count("evaluations")
-                if strict:
-                    exp = cname if cname in have else "generic"
-                else:
-                    exp = "generic"
-                    for k in type(node).__mro__[:-1]:
-                        if k.__name__ in have:
-                            exp = k.__name__
-                            break
-                got = vis.visit(node)
-                rec.outcome(f"dispatch:{exp == 'generic'}")
-                if got != exp:
-                    rec.violation("C09|dispatch", {"methods": have, "strict": strict, "node": cname}, f"visit() called {got}, expected {exp}")
+            for layout in (0, 1, 2):
+                vis = layered("DV", ASTVisitor, ns, layout)()
+                for cname, node in nodes.items():
+                    rec.count("states")
+                    rec.count("transitions")
+                    rec.count("traces")
+                    rec.count("evaluations")
+                    if strict:
+                        exp = cname if cname in have else "generic"
+                    else:
+                        exp = "generic"
+                        for k in type(node).__mro__[:-1]:
+                            if k.__name__ in have:
+                                exp = k.__name__
+                                break
+                    got = vis.visit(node)
+                    rec.outcome(f"dispatch:{exp == 'generic'}")
+                    if got != exp:
+                        rec.violation("C09|dispatch", {"methods": have, "strict": strict, "node": cname, "layout": layout}, f"visit() called {got}, expected {exp} (class layout {layout})")
     # validate=True
     for mname, ann, as_str in itertools.product(["VA", "VB", "VE"], ["VA", "VB", "VE", None], (False, True)):
         rec.count("evaluations")
